@@ -437,6 +437,7 @@ func runC12(c *Check) {
 	if os.Getenv("VERIF_DEBUG") != "" {
 		fmt.Fprintf(os.Stderr, "C12 sheets phase done at %v\n", time.Since(c12T0))
 	}
+	c12Environments(c, pool)
 	c12Imports(c, pool)
 	c12Modules(c, pool)
 	c12Colors(c, pool)
